@@ -56,6 +56,8 @@ var cases = []tcase{
 	{"C03e preformatted taken from a pooled buffer", []edit{
 		{"nano_handler.go", "\th2 := h.clone()\n\tfor _, a := range attrs {\n\t\tappendNanoValue(&h2.preformatted, a.Value, h.Options.colorful)\n\t}\n\treturn h2",
 			"\tbuf := newBuffer()\n\tdefer freeBuffer(buf)\n\t*buf = append(*buf, h.preformatted...)\n\tfor _, a := range attrs {\n\t\tappendNanoValue(buf, a.Value, h.Options.colorful)\n\t}\n\th2 := h.clone()\n\th2.preformatted = slices.Clip(*buf)\n\treturn h2"}}, nil, "chain", "unrec"},
+	{"package-level table written through a held pointer", []edit{
+		{"nano_handler.go", "func appendNanoSource(buf *[]byte, pc uintptr) {\n", "var lastSource struct {\n\tpc   uintptr\n\ttext string\n}\n\nfunc appendNanoSource(buf *[]byte, pc uintptr) {\n\tls := &lastSource\n\tls.pc = pc\n"}}, nil, "conc", "nano:5"},
 	{"clip removed", []edit{
 		{"nano_handler.go", "preformatted: slices.Clip(h.preformatted),", "preformatted: h.preformatted,"}}, nil, "chain", "nano:0"},
 	{"new mutex in clone", []edit{
@@ -191,6 +193,7 @@ func TestRecogniser(t *testing.T) {
 				}
 			default:
 				if len(un) > 0 {
+					t.Logf("REFUSED (a note under the current policy; must be caught dynamically): %v", un)
 					return // refused: acceptable for a breaking change (never a pass)
 				}
 				p := strings.Split(c.want, ":")
